@@ -370,7 +370,7 @@ class OptRun:
             ms, sl = R.blocking(tuple(shape), cfg["mpd"], cfg.get("merge", True))
             blocks = [R.BlockRef(tuple(s.stop - s.start for s in b), self.rcfg, zero()) for b in sl]
             self.ref.append(dict(merged=ms, slices=sl, blocks=blocks, W=self.W0[i].reshape(ms).copy()))
-        self.k = [0 if not cfg.get("symbolic_step") else None for _ in groups]
+        self.k = [0 for _ in groups]
         self.nsteps = 0
 
     # -- observation through the public state surface
@@ -594,6 +594,24 @@ class OptRun:
     # -- re-basing (DESIGN 1.4 / 1b): rename what was just proved equal to fresh variables
     def rebase(self):
         n = self.nsteps
+        if self.cfg.get("symbolic_step"):
+            # arbitrary step number: the group's counter becomes a symbolic integer k >= (steps taken so far); with the
+            # arbitrary re-based state this makes the next step() one inductive step of the recurrences
+            for gi in range(len(self.groups)):
+                cur = self.k[gi]
+                k = symx.symint(f"{self.tag}k{n}g{gi}")
+                if IS_SYM:
+                    import z3
+
+                    lo = cur if isinstance(cur, int) else 0
+                    CTX.assume(z3.And(k.e >= lo, k.e <= 10**6))
+                st = self.step_counter(gi)
+                if IS_SYM:
+                    st.a[()] = k
+                else:
+                    with torch.no_grad():
+                        st.fill_(int(k))
+                self.k[gi] = k
         for pi, p in enumerate(self.params):
             rp = self.ref[pi]
             fresh = arr_var(f"{self.tag}rw{n}p{pi}", rp["merged"])
